@@ -131,6 +131,120 @@ func (g *c19gen) fn(name string) *ast.FuncDecl {
 	return f
 }
 
+// c19alpha renders statements with local identifiers numbered v1, v2, … in order of first appearance
+// (renaming a variable is harmless, swapping two variables is not); package names, called function and
+// conversion names, field and method names, literals and operators are kept.
+type c19alpha struct {
+	g     *c19gen
+	names map[string]string
+	pkgs  map[string]bool
+}
+
+func (a *c19alpha) name(n string) string {
+	if n == "nil" || n == "true" || n == "false" || n == "_" {
+		return n
+	}
+	if v, ok := a.names[n]; ok {
+		return v
+	}
+	v := fmt.Sprintf("v%d", len(a.names)+1)
+	a.names[n] = v
+	return v
+}
+
+func (a *c19alpha) expr(e ast.Expr) string {
+	switch x := e.(type) {
+	case *ast.Ident:
+		return a.name(x.Name)
+	case *ast.BasicLit:
+		return x.Value
+	case *ast.ParenExpr:
+		return "(" + a.expr(x.X) + ")"
+	case *ast.SelectorExpr:
+		if id, ok := x.X.(*ast.Ident); ok && a.pkgs[id.Name] {
+			return id.Name + "." + x.Sel.Name
+		}
+		return a.expr(x.X) + "." + x.Sel.Name
+	case *ast.UnaryExpr:
+		return x.Op.String() + a.expr(x.X)
+	case *ast.BinaryExpr:
+		return a.expr(x.X) + " " + x.Op.String() + " " + a.expr(x.Y)
+	case *ast.CallExpr:
+		var fn string
+		switch f := x.Fun.(type) {
+		case *ast.Ident:
+			fn = f.Name
+		case *ast.SelectorExpr:
+			fn = a.expr(f)
+		default:
+			a.g.ctx.Refuse("CalcBudget: call of unsupported form: %s", a.g.pkg.Src(x))
+		}
+		args := make([]string, len(x.Args))
+		for i, ar := range x.Args {
+			args[i] = a.expr(ar)
+		}
+		return fn + "(" + strings.Join(args, ", ") + ")"
+	}
+	a.g.ctx.Refuse("CalcBudget: unsupported expression %T: %s", e, a.g.pkg.Src(e))
+	return ""
+}
+
+func (a *c19alpha) stmt(s ast.Stmt) string {
+	switch x := s.(type) {
+	case *ast.AssignStmt:
+		r := make([]string, len(x.Rhs))
+		for i, e := range x.Rhs {
+			r[i] = a.expr(e)
+		}
+		l := make([]string, len(x.Lhs))
+		for i, e := range x.Lhs {
+			l[i] = a.expr(e)
+		}
+		return strings.Join(l, ", ") + " " + x.Tok.String() + " " + strings.Join(r, ", ")
+	case *ast.ReturnStmt:
+		r := make([]string, len(x.Results))
+		for i, e := range x.Results {
+			r[i] = a.expr(e)
+		}
+		return strings.TrimSpace("return " + strings.Join(r, ", "))
+	case *ast.BranchStmt:
+		if x.Label != nil {
+			return x.Tok.String() + " L"
+		}
+		return x.Tok.String()
+	case *ast.IncDecStmt:
+		return a.expr(x.X) + x.Tok.String()
+	case *ast.ExprStmt:
+		return a.expr(x.X)
+	case *ast.BlockStmt:
+		return a.block(x)
+	case *ast.IfStmt:
+		if x.Init != nil {
+			a.g.ctx.Refuse("CalcBudget: if with init statement")
+		}
+		out := "if " + a.expr(x.Cond) + " " + a.block(x.Body)
+		if x.Else != nil {
+			out += " else " + a.stmt(x.Else)
+		}
+		return out
+	case *ast.ForStmt:
+		if x.Init != nil || x.Post != nil || x.Cond == nil {
+			a.g.ctx.Refuse("CalcBudget: loop is not a plain `for cond`")
+		}
+		return "for " + a.expr(x.Cond) + " " + a.block(x.Body)
+	}
+	a.g.ctx.Refuse("CalcBudget: unsupported statement %T: %s", s, a.g.pkg.Src(s))
+	return ""
+}
+
+func (a *c19alpha) block(b *ast.BlockStmt) string {
+	out := make([]string, len(b.List))
+	for i, s := range b.List {
+		out[i] = a.stmt(s)
+	}
+	return "{ " + strings.Join(out, "; ") + " }"
+}
+
 func isLenGuard(e ast.Expr) bool { // len(x) <op> n
 	b, ok := e.(*ast.BinaryExpr)
 	if !ok {
@@ -293,6 +407,16 @@ func genC19(ctx *Ctx) {
 		ctx.Refuse("plan: best-roster rule not found")
 	}
 	g.add("plan.scoreIf", g.norm(scoreIf.Cond)+" => "+g.stmt(scoreIf.Body.List[0]))
+	// which variant of the candidate guard the tree has: `len(roster) > 0` (as pinned), or the guard of
+	// work/C19/fix-noop-singleton-rosters.diff; index expressions matter here, so the source text decides
+	skipNoop := false
+	switch strings.Join(strings.Fields(g.pkg.Src(scoreIf.Cond)), " ") {
+	case "len(roster) > 0":
+	case "len(roster) > 1 || (len(roster) == 1 && roster[0].LiveSize() < roster[0].FullSize())":
+		skipNoop = true
+	default:
+		ctx.Refuse("plan: the guard in front of scoreSegments is neither the pinned nor the repaired one: %s", g.pkg.Src(scoreIf.Cond))
+	}
 	g.add("plan.bestRule", g.norm(best.Cond)+" => "+g.stmts(best.Body))
 
 	// ---- findLiveSizesAndEligibles
@@ -363,6 +487,31 @@ func genC19(ctx *Ctx) {
 		return true
 	})
 	g.add("calcBudget.guards", strings.Join(cbFacts, "; "))
+	// the whole body of CalcBudget with the local names numbered in order of first appearance (the staircase
+	// models calcBudgetF / calcBudgetRat / calcBudgetNat are transcriptions of exactly these statements)
+	al := &c19alpha{g: g, names: map[string]string{}, pkgs: map[string]bool{}}
+	for _, f := range g.pkg.Files {
+		for _, im := range f.Imports {
+			p, _ := strconv.Unquote(im.Path.Value)
+			if i := strings.LastIndex(p, "/"); i >= 0 {
+				p = p[i+1:]
+			}
+			al.pkgs[p] = true
+		}
+	}
+	for _, fl := range cb.Type.Params.List {
+		for _, n := range fl.Names {
+			al.name(n.Name)
+		}
+	}
+	if cb.Type.Results != nil {
+		for _, fl := range cb.Type.Results.List {
+			for _, n := range fl.Names {
+				al.name(n.Name)
+			}
+		}
+	}
+	g.add("calcBudget.body", al.block(cb.Body))
 	sc := g.fn("ScoreSegments")
 	var lits []string
 	ast.Inspect(sc.Body, func(n ast.Node) bool {
@@ -421,9 +570,12 @@ func genC19(ctx *Ctx) {
 		}
 		fmt.Fprintf(&b, "  (%s, %s)%s\n", LeanStr(f[0]), LeanStr(f[1]), sep)
 	}
-	b.WriteString("]\n\nend BlugeGen.C19\n")
+	b.WriteString("]\n\n/-- the roster loop skips one-segment rosters without deletions (see `Bluge.MergePlan.Options.skipNoop`) -/\n")
+	fmt.Fprintf(&b, "def skipNoop : Bool := %v\n", skipNoop)
+	b.WriteString("\nend BlugeGen.C19\n")
 	ctx.WriteLean("C19", b.String())
 	ctx.Summary["facts"] = len(g.facts)
+	ctx.Summary["skipNoop"] = skipNoop
 	for _, f := range g.facts {
 		ctx.Summary[f[0]] = f[1]
 	}
